@@ -8,7 +8,7 @@ RESTORE = dict()
 
 
 def run(chk):
-    return rc.run_property(chk, 'C17', ORACLES, restore=RESTORE)
+    return rc.run_property(chk, 'C17', ORACLES, restore=RESTORE, extra_props=['XvcRepo.Props.C17Cmd'])
 
 
 def replay(chk, data):
